@@ -443,6 +443,31 @@ def header_failures(limit=10 ** 6):
                         fails.append({'id': ident, 'header': repr(hdr), 'target': target, 'problem': 'table changed by the header'})
                     if len(fails) >= limit:
                         return fails
+        # the header that save_xye generates itself names the coordinate: a coordinate name is arbitrary text too
+        for sep in seps:
+            name = f'tof{sep}1 2 3#'
+            dan = sc.DataArray(da.data, coords={name: da.coords['x'].rename_dims({'x': 'x'})})
+            for target in ('file object', 'path'):
+                ident = f'header:generated:{"+".join(str(ord(c)) for c in sep)}:{target}'
+                try:
+                    if target == 'file object':
+                        f = io.StringIO()
+                        xye.save_xye(f, dan)
+                        f.seek(0)
+                        back = xye.load_xye(f, dim='x', unit='counts', coord_unit='m')
+                    else:
+                        path = os.path.join(d, 'g.xye')
+                        xye.save_xye(path, dan)
+                        back = xye.load_xye(path, dim='x', unit='counts', coord_unit='m')
+                        os.unlink(path)
+                except Exception as e:  # noqa: BLE001
+                    fails.append({'id': ident, 'header': f'generated for the coordinate {name!r}', 'target': target, 'problem': f'raised {type(e).__name__}: {e}'[:300]})
+                    continue
+                if back.sizes != {'x': 3} or not (np.array_equal(back.coords['x'].values, xs) and np.array_equal(back.values, vals)):
+                    fails.append({'id': ident, 'header': f'generated for the coordinate {name!r}', 'target': target,
+                                  'problem': f'3 rows saved, {dict(back.sizes)} loaded: the generated header interferes with the table'})
+                if len(fails) >= limit:
+                    return fails
     finally:
         shutil.rmtree(d, ignore_errors=True)
     return fails
@@ -503,7 +528,7 @@ def bounded_roundtrips(chk):
     n = 120 if chk.tier == 'quick' else 3000
     fails = roundtrip_failures(n, 95 + chk.seed)
     chk.bounded_check('real-round-trips', 'real save_xye / load_xye: coordinate and values bit for bit, variances within 4 unit roundoffs, hostile headers, 1..1e4 rows, '
-                      'subnormal / extreme / random-bit-pattern values, path and file-object targets, refusals; every ASCII character in a header line x 2 continuations x 3 targets', f'{n} round trips (1..1e4 rows) + 804 header round trips + 6 refusals', n + 810, fails)
+                      'subnormal / extreme / random-bit-pattern values, path and file-object targets, refusals; every ASCII character in a header line x 2 continuations x 3 targets', f'{n} round trips (1..1e4 rows) + 804 header round trips + 268 with generated headers for hostile coordinate names + 6 refusals', n + 1078, fails)
 
 
 def replay(rec):
